@@ -52,13 +52,25 @@ pub fn convert_grammar_functions_to_semantic_functions(
             };
             match (ident.as_str(), exprs.as_slice()) {
                 ("index", [grammar::Expr::IntLiteral(index_)]) => {
-                    index = Some(*index_ as usize);
+                    index = Some((*index_).try_into().with_context(|| {
+                        format!(
+                            "failed to convert `index` attribute into usize for vftable function `{}`",
+                            function.name
+                        )
+                    })?);
                 }
                 _ => continue,
             }
         }
 
         if let Some(index) = index {
+            if index < output.len() {
+                anyhow::bail!(
+                    "vftable function `{}` has index {index}, but the preceding functions already occupy {} slots",
+                    function.name,
+                    output.len()
+                );
+            }
             make_padding_functions(&mut output, index);
         }
         let function = function::build(type_registry, &module.scope(), true, function)
@@ -68,6 +80,12 @@ pub fn convert_grammar_functions_to_semantic_functions(
 
     // Pad out to target size
     if let Some(size) = size {
+        if size < output.len() {
+            anyhow::bail!(
+                "vftable has {} functions, which is more than its declared size {size}",
+                output.len()
+            );
+        }
         make_padding_functions(&mut output, size);
     }
 
